@@ -2,6 +2,7 @@
   C02 — ε-copy round trip equals the original and agrees with full copy.
 -/
 import EpsModel.Lemmas.TopLevel
+import EpsModel.Lemmas.Agree
 namespace Eps.C02
 open Eps
 
@@ -41,6 +42,45 @@ theorem eps_full_agree_on_ser (H : B → Nat) (hH : ∀ b, H b < 2^64) (T : Ty) 
   have hf := Ty.deFull_ser_append H hH T name v [] hT hv hname hlen
   simp only [List.append_nil] at hf
   exact ⟨e, _, he, by rw [her]; exact hf⟩
+
+/-! ### Agreement of the two modes on arbitrary bytes -/
+
+/-- Body level, **any bytes** (not only serialized streams), any type, any base address: whenever
+    the ε-copy reader returns a result whose borrowed strings hold valid UTF-8, the full-copy reader
+    returns the value that result describes, leaves the same rest and reaches the same position.
+    (`d.length ≤ isize::MAX` holds of every Rust slice.) -/
+theorem eps_full_agree_any_bytes (base : Nat) (T : Ty) (d : B) (pos : Nat) (e : EVal) (d' : B) (p' : Nat)
+    (hd : d.length ≤ isizeMax) (h : T.decEps base d pos = .ok (e, d', p')) (hs : e.strsValid) :
+    T.decFull .reader d pos = .ok (e.erase, d', p') :=
+  (Ty.eps_full base T d pos e d' p' hd h hs).1
+
+/-- The same for the entry points, header check included. -/
+theorem deEps_deFull_agree_any_bytes (H : B → Nat) (T : Ty) (base : Nat) (s : B) (e : EVal) (n : Nat)
+    (hd : s.length ≤ isizeMax) (h : T.deEps H base s = .ok (e, n)) (hs : e.strsValid) :
+    T.deFull H s = .ok (e.erase, n) := by
+  simp only [Ty.deEps] at h
+  obtain ⟨⟨_, d1, p1⟩, h1, h2⟩ := Res.bind_eq_ok h
+  obtain ⟨⟨e', d2, p2⟩, h3, h4⟩ := Res.bind_eq_ok h2
+  simp at h4; obtain ⟨rfl, rfl⟩ := h4
+  have hl := Shr.checkHeader _ _ s 0 _ _ _ h1
+  have := (Ty.eps_full base T d1 p1 e' d2 p2 (by omega) h3 hs).1
+  simp only [Ty.deFull, h1, Res.bind_ok, this]
+
+/-- The fields that the derived ε-copy code reads with the full-copy methods (on the slice) get the
+    value the plain full-copy reader gets: the slice reader only adds failure cases. -/
+theorem full_on_slice_agrees (base : Nat) (T : Ty) (d : B) (pos : Nat) (x : Val × B × Nat)
+    (h : T.decFull (.slice base) d pos = .ok x) : T.decFull .reader d pos = .ok x :=
+  Ty.decFull_mode base T d pos x h
+
+/-- The UTF-8 hypothesis cannot be dropped: the ε-copy reader borrows a string without validating it
+    (it transmutes the bytes), the full-copy reader panics on the same bytes. Length 1, byte 0xff. -/
+theorem eps_accepts_invalid_utf8 :
+    ∃ e, Ty.string.decEps 0 [1, 0, 0, 0, 0, 0, 0, 0, 0xff] 0 = .ok (e, [], 9) ∧
+      Ty.string.decFull .reader [1, 0, 0, 0, 0, 0, 0, 0, 0xff] 0 = .panic := by
+  refine ⟨.bStr 8 [0xff], ?_, ?_⟩
+  · simp [Ty.decEps, decEpsSliceZero, readWord, readExact, leVal, Ty.sizeOf, Prim.size, IntK.size, alignRead, takeOrPanic, pad,
+      Ty.maxSizeOf, Ty.fromMemList]
+  · simp [Ty.decFull, decFullStr, readWord, readExact, leVal, isizeMax, validUtf8]
 
 /-! Non-vacuity: a buffer at address 0 mod 8 aligns `Vec<u64>` wherever the body starts. -/
 example (pos : Nat) (vs : List Val) (base : Nat) (h : base % 8 = 0) :
